@@ -86,9 +86,19 @@ DeepXml ==
         /\ nbad' = nbad + (IF ok THEN 0 ELSE 1)
   /\ l' = l + 1
 
+\* many goroutines walking one very deep tree at once: each evaluation still returns the serial value
+\* {"ev":"deepconc","depth":D,"goroutines":G,"rounds":R,"evals","wrong","errors"}
+DeepConc ==
+  /\ l <= Len(Trace) /\ Trace[l].ev = "deepconc"
+  /\ LET ev == Trace[l]
+         ok == ev.evals = ev.goroutines * ev.rounds /\ ev.wrong = 0 /\ ev.errors = 0
+     IN /\ (~ok => PrintT(ToJson([verdict |-> "deepconc", l |-> l, want |-> [evals |-> ev.goroutines * ev.rounds, wrong |-> 0, errors |-> 0]])))
+        /\ nbad' = nbad + (IF ok THEN 0 ELSE 1)
+  /\ l' = l + 1
+
 Done ==
   /\ l = Len(Trace) + 1
   /\ PrintT(ToJson([verdict |-> "done", lines |-> Len(Trace), bad |-> nbad]))
   /\ l' = l + 1 /\ UNCHANGED nbad
-Next == ScaleDoc \/ DeepJson \/ DeepXml \/ Done
+Next == ScaleDoc \/ DeepJson \/ DeepXml \/ DeepConc \/ Done
 =============================================================================
